@@ -162,11 +162,31 @@ impl Srv {
     }
 
     pub async fn restart(&mut self, graceful: bool, new_cfg: Option<&Value>) -> Result<(), IggyError> {
+        self.restart_ex(graceful, new_cfg, false).await
+    }
+
+    pub async fn restart_ex(&mut self, graceful: bool, new_cfg: Option<&Value>, drop_index: bool) -> Result<(), IggyError> {
         for (_, c) in self.clients.drain() {
             let _ = c.disconnect().await;
         }
         if graceful {
             self.shared.write().await.shutdown().await?;
+        }
+        if drop_index {
+            // the index files disappear while the server is down: they are rebuilt from the logs at start-up
+            fn walk(p: &Path) {
+                if let Ok(rd) = std::fs::read_dir(p) {
+                    for e in rd.flatten() {
+                        let path = e.path();
+                        if path.is_dir() {
+                            walk(&path);
+                        } else if path.extension().map(|x| x == "index").unwrap_or(false) {
+                            let _ = std::fs::remove_file(&path);
+                        }
+                    }
+                }
+            }
+            walk(&self.dir.join("streams"));
         }
         if let Some(c) = new_cfg {
             let mut merged = self.cfg.clone();
@@ -271,7 +291,7 @@ impl Srv {
         verif_clock::set(self.clock);
         let cname = op.get("c").and_then(|v| v.as_str()).unwrap_or("root").to_string();
         let name = s(op, "op").to_string();
-        if self.down && !matches!(name.as_str(), "restart" | "crash" | "tree" | "grep" | "advance" | "corrupt_last_log") {
+        if self.down && !matches!(name.as_str(), "restart" | "crash" | "tree" | "grep" | "advance" | "corrupt_last_log" | "remove_indexes") {
             return json!({"r": "err", "code": 0, "name": "server_down"});
         }
         match name.as_str() {
@@ -283,7 +303,8 @@ impl Srv {
             }
             "restart" => {
                 let graceful = op.get("graceful").and_then(|v| v.as_bool()).unwrap_or(true) && !self.down;
-                match self.restart(graceful, op.get("cfg")).await {
+                let drop_index = op.get("drop_index").and_then(|v| v.as_bool()).unwrap_or(false);
+                match self.restart_ex(graceful, op.get("cfg"), drop_index).await {
                     Ok(()) => {
                         self.down = false;
                         json!({"r": "ok"})
@@ -351,6 +372,20 @@ impl Srv {
                 }
             }
             "stress" => crate::stress::stress(self.addr, self.shared.clone(), op).await,
+            "admin_stress" => crate::stress::admin_stress(self.addr, op).await,
+            "remove_indexes" => {
+                // the index files of a partition disappear while the server is down (they are rebuilt from the logs at start-up)
+                let dir = self.dir.join(format!("streams/{}/topics/{}/partitions/{}", u(op, "stream"), u(op, "topic"), u(op, "partition")));
+                let mut n = 0;
+                if let Ok(rd) = std::fs::read_dir(&dir) {
+                    for e in rd.flatten() {
+                        if e.path().extension().map(|x| x == "index").unwrap_or(false) && std::fs::remove_file(e.path()).is_ok() {
+                            n += 1;
+                        }
+                    }
+                }
+                json!({"r": "ok", "removed": n})
+            }
             "save" => match self.shared.read().await.persist_messages().await {
                 Ok(n) => json!({"r": "ok", "n": n}),
                 Err(e) => err_json(&e),
